@@ -768,8 +768,9 @@ class MapLoop:
             c.ob('#%s:preserved/%s' % (self._short(), n), f, kind='A')
         with _quiet():
             kern = self.spec.kernel(self, env, self.k)
-        for n, f in kern:
-            c.ob('#%s:kernel/%s' % (self._short(), n), f, kind='P')
+        for item in kern:
+            n, f = item[0], item[1]
+            c.ob('#%s:kernel/%s' % (self._short(), n), f, kind='P', **(item[2] if len(item) > 2 else {}))
         w = fresh_key('frame_w')
         pre = [w != self.k, z3.Select(self.done, w)]
         with _quiet():
